@@ -343,6 +343,52 @@ def job_export(gear_cls, hist, units, time_unit):
                meta=dict(family="export", cls=gear_cls, hist=hist))
 
 
+def job_export_wrapper(gear_cls):
+    """Powertrain.export_time_variables: the wrapper hands every element, the powertrain's own time axis and EACH unit argument
+    under its own keyword to gearpy.utils.export_time_variables (whose contract is proved by the export jobs above)."""
+    def body(c, O):
+        if c.concrete:
+            return
+        import gearpy.powertrain as PT
+        s = simulated(c, gear_cls, 2)
+        if s is None:
+            return
+        pt, motor, gear, times, samples = s
+        calls = []
+        real = PT.__dict__["export_time_variables"]
+        PT.__dict__["export_time_variables"] = lambda *a, **k: calls.append((a, k))
+        try:
+            # eleven pairwise different argument values: a swapped or dropped keyword cannot go unnoticed
+            args = dict(time_unit="U-time", angular_position_unit="U-pos", angular_speed_unit="U-spd", angular_acceleration_unit="U-acc",
+                        torque_unit="U-trq", driving_torque_unit="U-drv", load_torque_unit="U-load", force_unit="U-force",
+                        stress_unit="U-stress", current_unit="U-cur")
+            st, r = H.call(pt.export_time_variables, folder_path="some/folder", **args)
+            O.prove("export-wrapper:no-exception", st == "ok", props=("C18",), note=repr(r))
+            O.prove("export-wrapper:one-call-per-element-in-chain-order",
+                    len(calls) == len(pt.elements) and all(not a and k.get("rotating_object") is e for (a, k), e in zip(calls, pt.elements)),
+                    props=("C18", "C17"))
+            import os as _os
+            O.prove("export-wrapper:file-named-after-the-element-inside-the-folder",
+                    all(k.get("file_path") == _os.path.join("some/folder", e.name) for (a, k), e in zip(calls, pt.elements)), props=("C18",))
+            O.prove("export-wrapper:time-axis-is-the-powertrain's-own-recorded-axis", all(k.get("time_array") is pt.time or k.get("time_array") == pt.time for a, k in calls),
+                    props=("C18", "C11"))
+            O.prove("export-wrapper:every-unit-argument-reaches-the-keyword-of-the-same-name(no other keywords)",
+                    all({kk: v for kk, v in k.items() if kk not in ("rotating_object", "file_path", "time_array")} == args for a, k in calls),
+                    props=("C18",), note=str([{kk: v for kk, v in k.items() if kk.endswith("_unit") and args.get(kk) != v} for a, k in calls][:1]))
+            for name in args:
+                calls.clear()
+                st, r = H.call(pt.export_time_variables, folder_path="some/folder", **dict(args, **{name: 5}))
+                O.prove(f"export-wrapper:non-string-{name}=>TypeError-and-nothing-exported", st == "raise" and isinstance(r, TypeError) and not calls, props=("C18",))
+            calls.clear()
+            st, r = H.call(pt.export_time_variables, folder_path="", **args)
+            O.prove("export-wrapper:empty-folder=>ValueError-and-nothing-exported", st == "raise" and isinstance(r, ValueError) and not calls, props=("C18",))
+            O.cover("done")
+        finally:
+            PT.__dict__["export_time_variables"] = real
+    return Job(f"powertrain.export-wrapper[{gear_cls}]", body, ("C18", "C17", "C11"), functions=["gearpy.powertrain.Powertrain.export_time_variables"],
+               expect_covers=("done",), meta=dict(family="export", cls=gear_cls, hist=2))
+
+
 def job_update_time():
     """Powertrain.update_time: the interface contract the solver proofs use (Iface.update_time)"""
     def body(c, O):
@@ -430,4 +476,5 @@ def all_jobs(exact_tables=None):
         jobs.append(job_snapshot(cls, 1, None, UNITS_A, "all(default),single-instant"))
         jobs.append(job_export(cls, 2, UNITS_A, "sec"))
         jobs.append(job_export(cls, 3, UNITS_B, "ms"))
+        jobs.append(job_export_wrapper(cls))
     return jobs
